@@ -51,8 +51,9 @@ def observe(binp, cases):
         for r, o in zip(have, C.run_model("simplefrag", [r["sx"] for r in have])):
             x = C.parse_sx(o)
             if len(x) >= 2:
-                # (inside the proved class, verdict of the reading, inside through the typed-value theorem only)
-                frag[r["id"]] = (x[0] == 1, x[1] == 1, len(x) > 2 and x[2] == 1)
+                # (inside a proved class, verdict of the reading, inside only under the unproved divisibility clause of the numeric
+                #  interface, inside through the typed-value theorem proved of the binary64 model)
+                frag[r["id"]] = (x[0] == 1, x[1] == 1, len(x) > 2 and x[2] == 1, len(x) > 3 and x[3] == 1)
     out = []
     for c, r in zip(cases, recs):
         out.append({"case": c, "skip": r.get("skip"), "go": go_view(r["go"]) if "go" in r else None,
